@@ -178,6 +178,17 @@ namespace hv
         }
     };
 
+    // integer division / remainder by 100 (two keys packed into one link value)
+    struct VHi100
+    {
+        static constexpr auto name = "v_hi100";
+        static void eval(In<"a", TS<Int>> a, Out<TS<Int>> out) { out.set(a.value() / 100); }
+    };
+    struct VLo100
+    {
+        static constexpr auto name = "v_lo100";
+        static void eval(In<"a", TS<Int>> a, Out<TS<Int>> out) { out.set(a.value() % 100); }
+    };
     struct VThrower   // distinct definition from VPass; identical behaviour (fault plan decides)
     {
         static constexpr auto name = "v_thrower";
